@@ -1336,6 +1336,12 @@ impl<'a, R: FileManager> FrontendCtx<'a, R> {
         }
 
         let inferred = self.extract_ts_type_lit_members(&typ.body.body, file.clone());
+        // the heritage clause may mention the type parameters too (`interface B<U> extends A<U>`)
+        let ext = if typ.extends.is_empty() {
+            None
+        } else {
+            Some(self.extract_interface_extends(&typ.extends, file.clone()))
+        };
 
         for _ in type_params {
             self.type_application_stack.pop();
@@ -1346,7 +1352,7 @@ impl<'a, R: FileManager> FrontendCtx<'a, R> {
         let runtype = if typ.extends.is_empty() {
             r
         } else {
-            let ext = self.extract_interface_extends(&typ.extends, file.clone())?;
+            let ext = ext.expect("extends clause was extracted above")?;
             let merged = Runtype::all_of(ext.into_iter().chain(std::iter::once(r?)).collect());
             let res = self.extract_object_from_runtype(&merged, &anchor);
             match res {
